@@ -910,12 +910,7 @@ class Family:
         if self.tier == "thorough":
             # every predicate token sequence with up to 3 comparisons, and a seeded sample of those with 4
             yield from self.predicate_exhaustive(3)
-            import os
-            import random
-            rnd = random.Random(int(os.environ.get("VERIF_SEED", "0") or 0))
-            four = [p for p in self.predicate_exhaustive(4) if p.label.count(" X") + p.label.count("X ") >= 0 and _leaves(p.label) == 4]
-            rnd.shuffle(four)
-            yield from four[:600]
+            pass   # 4-comparison predicates are swept exhaustively in parallel (pyab_static/exhaustive.py)
 
     def predicate_exhaustive(self, max_leaves=4):
         """Every predicate token sequence with up to max_leaves comparisons built from the
